@@ -464,7 +464,7 @@ theorem writeLmtpStatuses_goodT {a0 : A} (sts : List (Bytes × BRes)) : ∀ {s :
     intro s h
     obtain ⟨a, r⟩ := x
     simp only [writeLmtpStatuses, List.foldl_cons] at ih ⊢
-    have h1 := replyB_goodT h (dataStatus r).1 (dataStatus r).2.1 ["<".b ++ a ++ "> ".b ++ (dataStatus r).2.2]
+    have h1 := replyB_goodT h (dataStatus r).1 (dataStatus r).2.1 ["<".b ++ Text.printable a ++ "> ".b ++ (dataStatus r).2.2]
     obtain ⟨i1, i2, i3⟩ := ih h1
     exact ⟨i1, by rw [i2]; simp, by rw [i3]; simp⟩
 
